@@ -72,7 +72,7 @@ func (s *Scheme) handleSync(msg *IncMessage) {
 	s.lock.RUnlock()
 
 	if !exists {
-		s.Logger.Debugf("Received SYNC message for topic %s from %d but no instance expects it", hex.EncodeToString(msg.Topic)[:8], msg.Source)
+		s.Logger.Debugf("Received SYNC message for topic %s from %d but no instance expects it", hexPrefix(msg.Topic, 4), msg.Source)
 		return
 	}
 
@@ -80,20 +80,20 @@ func (s *Scheme) handleSync(msg *IncMessage) {
 }
 
 func (s *Scheme) handleMPC(msg *IncMessage) {
-	s.Logger.Debugf("msg on topic %s from %d", hex.EncodeToString(msg.Topic[:8]), msg.Source)
+	s.Logger.Debugf("msg on topic %s from %d", hexPrefix(msg.Topic, 8), msg.Source)
 	s.lock.RLock()
 	handleRBC, rbcExists := s.rbcInProgress[string(msg.Topic)]
 	classifier, classifierExists := s.messageClassifiers[string(msg.Topic)]
 	s.lock.RUnlock()
 
 	if !rbcExists {
-		s.Logger.Warnf("Received MPC message for topic %s but no RBC instance expects it", hex.EncodeToString(msg.Topic)[:8])
+		s.Logger.Warnf("Received MPC message for topic %s but no RBC instance expects it", hexPrefix(msg.Topic, 4))
 		s.Logger.Warnf("RBCMessage: %s", base64.StdEncoding.EncodeToString(msg.Data))
 		return
 	}
 
 	if !classifierExists {
-		s.Logger.Warnf("Received MPC message for topic %s but no classifier for it", hex.EncodeToString(msg.Topic)[:8])
+		s.Logger.Warnf("Received MPC message for topic %s but no classifier for it", hexPrefix(msg.Topic, 4))
 		return
 	}
 
@@ -132,7 +132,7 @@ func (s *Scheme) handleRBC(msg *IncMessage, rbcEncoding rbcEncoding, classifier 
 	rbcMsg.digest = hash(rawMsgBytes)
 
 	s.Logger.Debugf("Received MPC %smessage from %d on topic %s for round %d",
-		broadcastString, msg.Source, hex.EncodeToString(msg.Topic[:8]), msgRound)
+		broadcastString, msg.Source, hexPrefix(msg.Topic, 8), msgRound)
 
 	handleRBC(&rbcMsg, msg.Source)
 }
@@ -141,7 +141,7 @@ func (s *Scheme) handleAck(msg *IncMessage, round uint8, sender uint16, digest [
 	var rbcMsg rbcMsg
 
 	s.Logger.Debugf("Received RBC ack for topic %s with digest %s on round %d about %d from %d",
-		hex.EncodeToString(msg.Topic[:8]), hex.EncodeToString(digest[:8]), round, sender, msg.Source)
+		hexPrefix(msg.Topic, 8), hexPrefix(digest, 8), round, sender, msg.Source)
 	rbcMsg.digest = digest
 	rbcMsg.sender = sender
 	rbcMsg.round = round
@@ -282,7 +282,7 @@ func (s *Scheme) runDKG(ctx context.Context, membership *membership, dkgProtocol
 		broadcastParties := excludeUniversal(membership.universalIdentifiers, s.SelfID)
 
 		rbc := s.RBF(func(digest string, sender uint16, msgRound uint8) {
-			s.Logger.Debugf("Broadcasting ack with digest %s for round %d about %d", hex.EncodeToString([]byte(digest)[:8]), msgRound, sender)
+			s.Logger.Debugf("Broadcasting ack with digest %s for round %d about %d", hexPrefix([]byte(digest), 8), msgRound, sender)
 			payload := newRBCEncoding(digest, sender, msgRound)
 			s.Send(uint8(MsgTypeMPC), dkgTopicHash, payload, broadcastParties...)
 		}, func(m interface{}, from uint16) {
@@ -433,7 +433,7 @@ func (s *Scheme) Sign(c context.Context, msgHash []byte, topic string) ([]byte, 
 
 	topicHash := hash([]byte(topic))
 	topicHashText := hex.EncodeToString(topicHash)
-	msgHashHex := hex.EncodeToString(msgHash)
+	msgHashPrefix := hexPrefix(msgHash, 4)
 
 	start := time.Now()
 
@@ -468,7 +468,7 @@ func (s *Scheme) Sign(c context.Context, msgHash []byte, topic string) ([]byte, 
 		}
 
 		s.Logger.Infof("Parties %v out of %v (mapped to %v) were selected to sign message hash %s with a topic of %s",
-			signers, membership.universalIdentifiers, partyIDs, msgHashHex[:8], topicHashText[:8])
+			signers, membership.universalIdentifiers, partyIDs, msgHashPrefix, topicHashText[:8])
 
 		s.Logger.Debugf("Synchronization on topic %s took %v", topicHashText[:8], time.Since(start))
 
@@ -549,7 +549,7 @@ func (s *Scheme) Sign(c context.Context, msgHash []byte, topic string) ([]byte, 
 	case <-ctx.Done():
 		return nil, ctx.Err()
 	case res := <-resultChan:
-		s.Logger.Infof("Successfully signed message hash %s", msgHashHex[:8])
+		s.Logger.Infof("Successfully signed message hash %s", msgHashPrefix)
 		return res.sig, res.err
 	}
 }
@@ -840,6 +840,15 @@ func (r *threadSafeRBC) Receive(m RBCMessage, from uint16) {
 	defer r.lock.Unlock()
 
 	r.h(m, from)
+}
+
+// hexPrefix returns the hex encoding of at most the first n bytes of b; used to abbreviate
+// topics and digests in log messages without assuming anything about their length.
+func hexPrefix(b []byte, n int) string {
+	if len(b) > n {
+		b = b[:n]
+	}
+	return hex.EncodeToString(b)
 }
 
 func hash(in []byte) []byte {
